@@ -7,6 +7,7 @@
 From Coq Require Export String List ZArith Bool Ascii.
 From Coq Require Export Floats.SpecFloat.
 From Zog Require Export Model.Val Model.Engine Model.Coerce Model.Preds Model.Builder.
+From Zog Require Import Model.Http Model.Trim.
 Import ListNotations.
 Open Scope string_scope.
 
@@ -140,6 +141,9 @@ Definition mk_orc (pf : list (string * option spec_float)) (st : list ((bool * s
      o_parse_time := fun l s =>
        match find (fun e => String.eqb (fst (fst e)) l && String.eqb (snd (fst e)) s) tt with
        | Some e => snd e | None => None end |}.
+
+(** zenv: the provider over the raw environment; strings.TrimSpace is the model's own ([Model/Trim.v]) *)
+Definition penv_raw (env : list (string * string)) : prov := PEnv (map (fun kv => (fst kv, trim_space (snd kv))) env).
 
 Definition cdef (o : oracles) (layout : string) (k : kind) : val -> option dval := coerce_default o layout k.
 Definition cconst (d : dval) : val -> option dval := fun _ => Some d.
